@@ -41,7 +41,9 @@ Small == {VInt(3), VStr("abc"), VNone, VNps("int32", 4), VNd("int16", <<3>>, "C"
 Nested == {VList(<<a, b>>) : a \in Small, b \in Small}
           \cup {VDict(<<KStr("x"), KStr("y")>>, <<a, b>>) : a \in Small, b \in Small}
           \cup {VList(<<>>), VDict(<<>>, <<>>), VList(<<VList(<<VInt(3)>>)>>)}
-Keys == {KInt(7), KInt(0), KInt(-1), KStr("name"), KStr("n12x")}       \* string keys are not digit strings
+\* string keys are not digit strings; "plusnum" stands for the text " +1_0 " - not a digit string, although Python's
+\* int() would accept it: it stays a string key
+Keys == {KInt(7), KInt(0), KInt(-1), KStr("name"), KStr("n12x"), KStr("plusnum")}
 
 \* ---------------------------------------------------------------------------- JSON I-layer
 \* JSON tree: [j: "num" | "fnum" | "str" | "null" | "bool" | "arr" | "obj" | "ndobj"]
